@@ -168,6 +168,8 @@ def run(ctx):
             n1 = rng.randrange(1, 9)
             first = rng.choice([0x018000, 0x028000, 0x008100])
             second = rng.choice([0x008000 + n1, 0x008000, 0x008000 + n1 + 1, first + 2])
+            if i % 4 == 0:
+                second = 0x008000 + n1      # the offset that equals the number of bytes written so far
             n2 = rng.randrange(1, 6)
             src = f"*=0x{first:06x}\n.db " + ", ".join(str(rng.randrange(256)) for _ in range(n1)) + f"\n*=0x{second:06x}\n.db " + ", ".join(str(rng.randrange(256)) for _ in range(n2)) + "\n"
             if i % 4 == 1:
